@@ -378,9 +378,7 @@ def passes (hdr : Option Str) (cte : List Key) (s : List Tok) : List Tok :=
 /-- convertSQLToStoragePaths (hdr = none) / the slow path of convertSQLToStoragePathsWithHeaderDB -/
 def slow (hdr : Option Str) (ts : List Tok) : List Tok :=
   let s := prep ts
-  let cte := match hdr with
-    | none => cteScan 0 s
-    | some _ => if spAfter "with" s then cteScan 0 s else []
+  let cte := cteScan 0 s   -- both paths always extract the CTE names (header path: since /repo 04fa395)
   unmask (passes hdr cte s)
 
 -- ---------------------------------------------------------------- single-table fast path (header only)
@@ -409,7 +407,33 @@ def firstFromParen : List Tok → Bool
       else firstFromParen rest
     | _ => firstFromParen rest
 
-def isSingleTable (ts : List Tok) : Bool := countFromSp ts == 1 && !hasJoinSp ts && !firstFromParen ts
+/-- start indices of the matches of patternSimpleTable (leftmost, non-overlapping) -/
+def refStarts : Nat → Nat → List Tok → List Nat
+  | _, _, [] => []
+  | k + 1, i, _ :: rest => refStarts k (i + 1) rest
+  | 0, i, t :: rest =>
+    match t, rest with
+    | .w f, .s _ :: nm :: _ =>
+      if lower f == "from".toList && simpleName nm then i :: refStarts 2 (i + 1) rest else refStarts 0 (i + 1) rest
+    | _, _ => refStarts 0 (i + 1) rest
+
+/-- index of the token in which the first substring "from " ends -/
+def firstFromSpIdx : Nat → List Tok → Option Nat
+  | _, [] => none
+  | i, t :: rest =>
+    match rest with
+    | .s (' ' :: _) :: _ => if endsWith (lower t.text) "from".toList then some i else firstFromSpIdx (i + 1) rest
+    | _ => firstFromSpIdx (i + 1) rest
+
+/-- isSingleTableQuery (since /repo 53c9b19: also exactly one patternSimpleTable match, at the offset of the
+first "from ", and no CTE-looking construct) -/
+def isSingleTable (ts : List Tok) : Bool :=
+  countFromSp ts == 1 &&
+  (match refStarts 0 0 ts with
+    | [i] => firstFromSpIdx 0 ts == some i
+    | _ => false) &&
+  (cteScan 0 ts).isEmpty &&
+  !hasJoinSp ts && !firstFromParen ts
 
 /-- scanSQLFeatures finds no quote, `$`, `--`, `/*` -/
 def adjOpener : List Tok → Bool
